@@ -16,8 +16,11 @@ structure UEnv where
   isAlpha : Nat → Bool
   isDigit : Nat → Bool
   isUpper : Nat → Bool
-  /-- `str.lower()` of a whole string -/
+  /-- the detectors' lower-casing (`lower_keep_length` of `case_util.py`): `str.lower()` of the whole
+  string unless that changes its length -/
   lowerS : CPs → CPs
+  /-- plain `str.lower()` of a whole string (used where no positions are carried back) -/
+  lowerPy : CPs → CPs
 
 abbrev Sec := CPs × Option String
 
@@ -89,7 +92,7 @@ def interesting (U : UEnv) (combo : CPs) : Bool :=
   else if g 0 == cpOf '1' && g 1 == cpOf '2' && g 2 == cpOf '3' then false
   else if back 1 == cpOf '3' && back 2 == cpOf '2' && back 3 == cpOf '1' &&
       !(back 4 == cpOf 'q' || back 4 == cpOf 'Q') then false
-  else if Generated.Tables.falsePositiveWords.any (fun w => containsSub (U.lowerS combo) w) then false
+  else if Generated.Tables.falsePositiveWords.any (fun w => containsSub (U.lowerPy combo) w) then false
   else
     let alpha := if combo.any U.isAlpha then 1 else 0
     let digit := if combo.any (fun c => !U.isAlpha c && U.isDigit c) then 1 else 0
@@ -299,7 +302,7 @@ def alphaRuns (U : UEnv) : CPs → CPs → List CPs
 def mwTrain (U : UEnv) (cfg : MWCfg) (t : MWTable) (password : CPs) (setThreshold : Bool := false) : MWTable :=
   if password.length < cfg.minLen || password.length > cfg.maxLen then t
   else
-    (alphaRuns U (U.lowerS password) []).foldl (fun t run =>
+    (alphaRuns U (U.lowerPy password) []).foldl (fun t run =>
       if run.length ≥ cfg.minLen then t.bump run (if setThreshold then some cfg.threshold else none) else t) t
 
 /-- `_get_count(alpha_string)` on an already lower-cased string -/
